@@ -483,8 +483,8 @@ func GenPlan(profName string, seed uint64) *Plan {
 		}
 		p.Clients = append(p.Clients, prog)
 	}
-	if mono {
-		// cost-monotone runs must not contain room-relative costs
+	if mono || p.Flags.AllFits {
+		// cost-monotone and everything-fits runs must not contain room-relative costs
 		for ci := range p.Clients {
 			for oi := range p.Clients[ci] {
 				if p.Clients[ci][oi].K == OpSetRoom {
